@@ -123,3 +123,11 @@ Definition refine_hyp (c : case) : bool :=
   forallb (fun g => match adm_of_view g (view_of g st) with Some _ => mergeableb g st | None => true end) gs.
 
 Definition check_case_both (c : case) : bool := check_case c && spec_case c && refine_hyp c.
+
+(* with the recorded orders of the common nodes: refused merges are replayed with their partial effects *)
+Definition check_ocase_both (c : ocase) : bool := check_ocase c && spec_case (fst c) && refine_hyp (fst c).
+(* families produced by the real partitioner: any two partitions describe a common node / connection identically *)
+Definition partition_domain (c : case) : bool :=
+  let '(st, _, gs, _) := c in
+  forallb (fun g => forallb (fun h => (g =? h) || compatibleb (abs_adm g st) (abs_adm h st)) gs) gs.
+Definition check_ocase_part (c : ocase) : bool := check_ocase_both c && partition_domain (fst c).
